@@ -114,6 +114,11 @@ def tripCount (lb ub st : Int) : Nat :=
 def iters (lb ub st : Int) : List Int :=
   (List.range (tripCount lb ub st)).map (fun (k : Nat) => lb + st * (k : Int))
 
+/-- `scf.for` operationally: `i = lb; while i < ub { yield i; i += st }`, at most `fuel` iterations -/
+def whileIters (ub st : Int) : Nat → Int → List Int
+  | 0, _ => []
+  | fuel + 1, i => if i < ub then i :: whileIters ub st fuel (i + st) else []
+
 def trace (I : Nat → List Val → Val) : Blk → Env → List Event
   | .nil, _ => []
   | .pure d op args r, env => trace I r (upd env d (op.apply I (evalArgs env args)))
